@@ -11,19 +11,20 @@ from mc.ref import linalg as L
 
 RULE = ("operations: one- and two-qubit parametric built-ins x a parameter-expression alphabet P (symbols, sums, products, cos, numbers, sympy numbers), U3/MS with "
         "parameter tuples, controlled/dagger wrappers, a custom 2-parameter gate instantiated with EVERY pair from {alpha, beta, c, 0.5} (the definition's own "
-        "symbols in both orders and repeated), MultiPhaseOperation, Power/Exponential (must refuse); maps: EVERY function {alpha,beta,c,d} -> V (V = {unmapped, "
-        "0.3, e} quick; + {-1.2, 1/3} thorough; no chained maps); per (operation, map): bound parameters, bind-then-evaluate vs evaluate-then-substitute at two "
+        "symbols in both orders and repeated), MultiPhaseOperation, Power/Exponential (must refuse); maps: EVERY function {alpha,beta,c} -> V (V = {unmapped, "
+        "0.3, e, 0} quick; + {-1.2, 1/3, 0.0} thorough; no chained maps) plus a family binding the superfluous key d and families of float / sympy zeros; the caller's map "
+        "object must be unchanged after every bind; symbols with assumptions and Dummy symbols; per (operation, map): bound parameters, bind-then-evaluate vs evaluate-then-substitute at two "
         "assignments of the remaining symbols, free symbols, every split m = m1 + m2; circuits: all 2-operation circuits of a sub-alphabet. "
         "non-trivial = map binds at least one symbol the operation depends on")
 ASSUMPTIONS = ["chained maps (a value mentioning a key) are excluded: 'the same values' has no single meaning there", "matrices compared at two numeric assignments of the remaining symbols (entries are analytic in them)"]
-BOUNDS = {"quick": {"map_values": 3, "maps": 81}, "thorough": {"map_values": 5, "maps": 625}}
+BOUNDS = {"quick": {"map_values": "u, 0.3, e, 0 on (alpha,beta,c) + superfluous-key family + float/sympy zeros", "maps": 90}, "thorough": {"map_values": "u, 0.3, e, -1.2, 1/3, 0, 0.0", "maps": 369}}
 A, B, Cc, D, E = sympy.symbols("alpha beta c d e")
 KEYS = [A, B, Cc, D]
 ATOL = 1e-9
 
 PEXPR = {"a": A, "b": B, "a+b": A + B, "2a": 2 * A, "ab": A * B, "cos(a)": sympy.cos(A), "a+0.5": A + 0.5, "0.5": 0.5, "3": 3, "pi": sympy.pi, "F0.25": sympy.Float(0.25), "c": Cc,
          "b-c/2": B - Cc / 2}
-VALS = {"u": None, "0.3": 0.3, "e": E, "-1.2": -1.2, "1/3": sympy.Rational(1, 3)}
+VALS = {"u": None, "0.3": 0.3, "e": E, "-1.2": -1.2, "1/3": sympy.Rational(1, 3), "0": 0, "0.0": 0.0, "S0": sympy.Integer(0)}
 
 
 def mk_operation(d):
@@ -90,9 +91,16 @@ def op_case(case):
     nt = False
     for md in case["maps"]:
         m = mk_map(md)
+        m_items = list(m.items())
         bound = op.bind(m)
         k += 1
-        where = "op %s bind %s" % (case["op"], {str(a): str(b) for a, b in m.items()})
+        where = "op %s bind %s" % (case["op"], {str(a): str(b) for a, b in m_items})
+        if list(m.items()) != m_items:
+            return {"ok": False, "msg": where + ": the caller's symbol map was modified (now %s)" % m, "sig": "bind:map-modified", "ops": k}
+        if is_gate:
+            gb = op.gate.bind(m)
+            if list(m.items()) != m_items or len(gb.params) != len(bound.params) or not all(same_expr(x, y) for x, y in zip(gb.params, bound.params)):
+                return {"ok": False, "msg": where + ": gate.bind disagrees with operation.bind or modified the map", "sig": "bind:gate-vs-op", "ops": k}
         if type(bound) is not type(op) or (is_gate and tuple(bound.qubit_indices) != tuple(op.qubit_indices)):
             return {"ok": False, "msg": where + ": result is not the same kind of operation on the same qubits", "sig": "bind:kind", "ops": k}
         exp_params = [expected_param(p, m) for p in op.params]
@@ -189,8 +197,11 @@ def circuit_case(case):
     n = case["n"]
     for md in case["maps"]:
         m = mk_map(md)
+        m_items = list(m.items())
         b = c.bind(m)
         k += 1
+        if list(m.items()) != m_items:
+            return {"ok": False, "msg": "Circuit.bind modified the caller's symbol map: %s became %s" % (dict(m_items), m), "sig": "circuit:map-modified", "ops": k}
         if b.n_qubits != n or len(b.operations) != len(ops):
             return {"ok": False, "msg": "Circuit.bind changed the width or the number of operations", "sig": "circuit:shape", "ops": k}
         want = set().union(*[expected_param(p, m).free_symbols if isinstance(expected_param(p, m), sympy.Basic) else set() for o in ops for p in o.params]) if ops else set()
@@ -222,7 +233,43 @@ def circuit_case(case):
     return {"ok": True, "nt": bool(fs), "ops": k, "out": "len%d" % len(ops)}
 
 
-FUNCS = {"operations": op_case, "refusals": refuse_case, "circuits": circuit_case}
+def assume_case(case):
+    """{'kind': symbol flavour}: symbols carrying assumptions / Dummy symbols are ordinary symbols for binding: gate.bind, operation.bind and Circuit.bind
+    substitute them, report the remaining free symbols and give the matrix obtained by substitution"""
+    from orquestra.quantum import circuits as C
+    kind = case["kind"]
+    mk = {"real": lambda n: sympy.Symbol(n, real=True), "positive": lambda n: sympy.Symbol(n, positive=True), "dummy": lambda n: sympy.Dummy(n),
+          "integer": lambda n: sympy.Symbol(n, integer=True), "plain": lambda n: sympy.Symbol(n)}[kind]
+    t, ph, lm = mk("theta"), mk("phi"), mk("lam")
+    ops = [C.RX(t)(0), C.U3(t, ph, lm)(1), C.CPHASE(t + 2 * ph)(1, 0), C.RY(ph).controlled(1)(0, 2), custom_definition("custom1p")(t, lm)(2), C.RZ(lm).dagger(0),
+           C.MultiPhaseOperation((t, ph, 0.5, t + lm))]
+    n = 3
+    k = 0
+    for m in ({t: 0.3}, {t: 0.3, ph: -1.2}, {t: 0.3, ph: -1.2, lm: 0.7}, {ph: E, lm: 0.7}, {t: 0, ph: 0.0, lm: sympy.Integer(0)}, {}):
+        circ = C.Circuit(ops, n_qubits=n)
+        bc = circ.bind(m)
+        k += 1
+        for o0, o1 in zip(ops, bc.operations):
+            targets = [(o1, "Circuit.bind"), (o0.bind(m), "operation.bind")] + ([(o0.gate.bind(m), "gate.bind")] if hasattr(o0, "gate") else [])
+            for target, what in targets:
+                exp_params = [expected_param(p, m) for p in o0.params]
+                if len(target.params) != len(exp_params) or not all(same_expr(x, y) for x, y in zip(exp_params, target.params)):
+                    return {"ok": False, "msg": "%s symbols: %s(%s) of %s has parameters %s, substitution gives %s" % (kind, what, m, o0, target.params, exp_params), "sig": "assume:param", "ops": k}
+                want = set().union(*[p.free_symbols for p in exp_params if isinstance(p, sympy.Basic)] or [set()])
+                if set(target.free_symbols) != want:
+                    return {"ok": False, "msg": "%s symbols: %s(%s) of %s reports free symbols %s, expected %s" % (kind, what, m, o0, target.free_symbols, want), "sig": "assume:free", "ops": k}
+                k += 1
+        want = set().union(*[set(expected_param(p, m).free_symbols) for o in ops for p in o.params if isinstance(expected_param(p, m), sympy.Basic)])
+        if set(bc.free_symbols) != want:
+            return {"ok": False, "msg": "%s symbols: bound circuit reports free symbols %s, expected %s" % (kind, bc.free_symbols, want), "sig": "assume:circuit-free", "ops": k}
+        if not want:
+            for o0, o1 in zip(ops[:-1], bc.operations[:-1]):
+                if not np.allclose(num(o1.gate.matrix), num(o0.gate.matrix.subs(m, simultaneous=True)), atol=ATOL):
+                    return {"ok": False, "msg": "%s symbols: fully bound %s differs from the substituted matrix" % (kind, o0), "sig": "assume:matrix", "ops": k}
+    return {"ok": True, "nt": kind != "plain", "ops": k, "out": kind}
+
+
+FUNCS = {"assumption_symbols": assume_case, "operations": op_case, "refusals": refuse_case, "circuits": circuit_case}
 
 
 def op_alphabet(thorough):
@@ -251,8 +298,10 @@ def op_alphabet(thorough):
 
 def run(run):
     thorough = run.tier == "thorough"
-    vals = ["u", "0.3", "e", "-1.2", "1/3"] if thorough else ["u", "0.3", "e"]
-    maps = [list(m) for m in itertools.product(vals, repeat=4)]
+    # key d is never used by any operation (a superfluous key): it gets its own small family instead of multiplying the map space
+    vals = ["u", "0.3", "e", "-1.2", "1/3", "0", "0.0"] if thorough else ["u", "0.3", "e", "0"]
+    maps = [list(m) + ["u"] for m in itertools.product(vals, repeat=3)] + [[x, y, "u", w] for x in ("u", "0.3") for y in ("u", "e") for w in ("0.3", "e", "0")]
+    maps += [[x, y, z, "u"] for x, y, z in itertools.product(("u", "0.0"), repeat=3)][1:] + [[x, y, z, "u"] for x, y, z in itertools.product(("u", "S0"), repeat=3)][1:]
     ops = op_alphabet(thorough)
     blk = 27
     cases = [{"op": o, "maps": maps[i:i + blk]} for o in ops for i in range(0, len(maps), blk)]
@@ -268,4 +317,6 @@ def run(run):
         for b in sub:
             cc.append({"ops": [a, b], "n": 3, "maps": cmaps[:: (1 if thorough else 4)]})
     secs.append(Section("circuits", cc, circuit_case, horizon=600, chunk=4, desc="all 2-operation circuits over a %d-operation sub-alphabet: bind keeps width/order, free symbols, unitary" % len(sub)))
+    secs.append(Section("assumption_symbols", [{"kind": k} for k in ("plain", "real", "positive", "dummy", "integer")], assume_case, horizon=600, chunk=1,
+                        desc="symbols with assumptions / Dummy symbols through gate.bind, operation.bind, Circuit.bind"))
     run.run_sections(secs)
